@@ -519,20 +519,14 @@ class DicomStack(object):
 
         self._chk_congruent(meta)
 
-        self._phase_enc_dirs.add(meta.get('InPlanePhaseEncodingDirection'))
-        self._repetition_times.add(meta.get('RepetitionTime'))
-
         #Pull the info used for sorting
         slice_pos = dw.slice_indicator
-        self._slice_pos_vals.add(slice_pos)
         time_val = None
         if self._time_order:
             time_val = self._time_order.get_ordinate(meta)
-        self._time_vals.add(time_val)
         vector_val = None
         if self._vector_order:
             vector_val = self._vector_order.get_ordinate(meta)
-        self._vector_vals.add(vector_val)
 
         #Create a tuple with the sorting values
         sorting_tuple = (vector_val, time_val, slice_pos)
@@ -544,11 +538,18 @@ class DicomStack(object):
             sorting_tuple in self._sorting_tuples
            ):
             raise ImageCollisionError()
-        self._sorting_tuples.add(sorting_tuple)
 
         #Create a NiftiWrapper for this input if possible
         nii_wrp = None
         nii_wrp = NiftiWrapper.from_dicom_wrapper(dw, meta)
+
+        #Only update the state of the stack once we know the input is accepted
+        self._sorting_tuples.add(sorting_tuple)
+        self._slice_pos_vals.add(slice_pos)
+        self._time_vals.add(time_val)
+        self._vector_vals.add(vector_val)
+        self._phase_enc_dirs.add(meta.get('InPlanePhaseEncodingDirection'))
+        self._repetition_times.add(meta.get('RepetitionTime'))
         if self._ref_input is None:
             #We don't have a reference input yet, use this one
             self._ref_input = nii_wrp
